@@ -122,6 +122,55 @@ def identity_lemmas(o, L, S, E, on_sat):
     return True
 
 
+def location_lemmas(o, E, ML, structural):
+    """Where an answer points: node_location reads the text of the node's own module, converts the node's own byte range on that
+    text and pairs the result with that module's URL; the conversion itself is decided by Kani (range kernel of C16, below).
+    Shared with C18 (the edits of a rename are such locations)."""
+    try:
+        f_nl = ML.one(r"^(lsp::handlers::)?node_location$")
+    except KeyError as exn:
+        o.inconc(str(exn)[:160])
+        return
+    o.functions.append(mirlib.func_ref(f_nl, "oal-client"))
+    ex = mirlib.executor([ML])
+    n = 0
+    for p in ex.run(f_nl, arg_names=["workspace", "node"]):
+        if p.kind != "return" or not (p.ret[0] == "variant" and p.ret[2] == "Ok"):
+            continue
+        n += 1
+        sp = p.calls("NodeRef::span")
+        rf = p.calls("Workspace::read_file")
+        cv = p.calls("utf8_range_to_position")
+        ln = [e for e in p.calls() if e[1] == "Location::new"]
+        ok = len(sp) == 1 and len(rf) == 1 and len(cv) == 1 and len(ln) == 1
+        if ok:
+            span = ms.proj(ms.proj(sp[0][3], ("v", "Some"), E), ("f", 0), E)
+            text = ms.proj(ms.proj(rf[0][3], ("v", "Ok"), E), ("f", 0), E)
+            loc_of_span = [e for e in p.calls() if e[1] == "Span::locator" and any(t == span for t in ms.subterms(e[2][0]))]
+            rng_of_span = [e for e in p.calls() if e[1] == "Span::range" and any(t == span for t in ms.subterms(e[2][0]))]
+            ok = bool(loc_of_span) and bool(rng_of_span) and sp[0][2][0] in (("addr", ("sym", "node")), ("sym", "node")) and \
+                any(t == loc_of_span[0][3] for t in ms.subterms(rf[0][2][1])) and \
+                any(t == text for t in ms.subterms(cv[0][2][0])) and cv[0][2][1] == rng_of_span[0][3] and \
+                ln[0][2][1] == cv[0][3] and any(t[0] == "app" and t[1] == "Locator::url" and any(u == x[3] for x in loc_of_span for u in ms.subterms(t)) for t in ms.subterms(ln[0][2][0])) and \
+                any(t == ln[0][3] for t in ms.subterms(p.ret))
+        structural("node_location: the node's own byte range, converted on the text of the node's own module, under that module's URL", ok)
+    if n == 0:
+        o.inconc("node_location: no Ok path")
+    mirlib.check_translator(o, ex, "node_location")
+
+
+def range_kernel(o):
+    """utf8_range_to_position, decided by Kani/CBMC on the real unicode.rs: for every text of <= K scalar values and every span on
+    character boundaries the range selects exactly the span's text in the client's document (harness c16_h4_range of C16)."""
+    import kanirun
+    from vcommon import src_ref, Findings
+    k = 6 if tier() == "thorough" else 4
+    h = "h_unicode::c16_h4_range_k%d" % k
+    o.functions.append(src_ref("oal-client/src/lsp/unicode.rs", "fn utf8_range_to_position"))
+    o.bounds["range conversion (Kani)"] = "every text of <= %d Unicode scalar values, every span on character boundaries; unwind 4K+2 with unwinding assertions" % k
+    return kanirun.decide(o, "kern", [h], lambda _h: "src/h_unicode.rs", timeout=900 if tier() == "quick" else 3000, findings=Findings())
+
+
 def check():
     o = Outcome("C17")
     E = mirlib.enums()
@@ -138,7 +187,7 @@ def check():
     o.assumptions = ["syntax_at, the syntax accessors, Core::definition, External::node and node_location are uninterpreted",
                      "<Definition as PartialEq>::eq in the handlers is the equality whose own MIR is checked by the identity lemmas (every component compared)"]
     o.bounds = {"control": "all paths; loops: one arbitrary iteration from an arbitrary state", "values": "unbounded"}
-    o.outside = ["that the definition slot holds the innermost binder (C08)", "node_location's range conversion (C16)"]
+    o.outside = ["that the definition slot holds the innermost binder (C08)", "range conversion on texts longer than the Kani bound"]
     L = mirlib.Lemma(o)
     S = L.smt
     bad = []
@@ -202,6 +251,7 @@ def check():
     mirlib.check_translator(o, ex, "find_definition")
 
     find_references_lemmas(o, L, S, E, ML, f_fr, structural, on_sat)
+    location_lemmas(o, E, ML, structural)
 
     # syntax_at: the node under the cursor is the first node of the wanted kind whose span contains the offset - the
     # search runs over all descendants, casts, and tests containment; no other stage can end it early or drop a hit
@@ -237,6 +287,7 @@ def check():
     if not identity_lemmas(o, L, S, E, on_sat):
         return o.finish()
 
+    range_kernel(o)
     o.samples = [{"query": q["name"], "verdict": q["verdict"]} for q in o.queries[:12]]
     import lspcorpus
     rdir = new_replay_dir("C17", "lsp-corpus")
@@ -255,6 +306,9 @@ def check():
 
 
 def replay(path):
+    if "h_unicode" in os.path.basename(os.path.normpath(path)):
+        import kanirun
+        return kanirun.replay_saved(path)
     import lspcorpus
     probs, detail = lspcorpus.run(new_replay_dir("C17", "lsp-corpus"), want=("definition", "references"))
     print(detail)
